@@ -89,7 +89,46 @@ func TestC27(t *testing.T) {
 			yield(vt.Case{"cfg": cfg, "tenants": append([]string{"unknown-tenant"}, names...), "algo": []string{"hashmod", "ketama"}[rnd.Intn(2)], "workers": 6})
 		}
 	}
-	vt.Run(t, gen, nil, func(c vt.Case) (ev vt.Event) {
+	// phase 2: reload scenarios (scripts from HashringReloadMC); they mostly wait for the watcher,
+	// so they are run ahead, eight at a time, and handed to vt.Run in order
+	var reload []vt.Case
+	if p := os.Getenv("VERIF_CASES_HASHRINGRELOADMC"); p != "" && vt.Replay(t) == nil {
+		cs, err := vt.ReadNDJSON(p)
+		if err != nil {
+			t.Fatalf("C27: %v", err)
+		}
+		for _, c := range cs {
+			reload = append(reload, vt.Normalize(vt.Case{"kind": "reload", "script": c["script"], "catalog": c["catalog"], "rseed": rnd.Int63n(1 << 30)}))
+		}
+	}
+	pre := make([]vt.Event, len(reload))
+	var wg sync.WaitGroup
+	sem := make(chan struct{}, 8)
+	for i := range reload {
+		wg.Add(1)
+		go func(i int) {
+			defer wg.Done()
+			sem <- struct{}{}
+			defer func() { <-sem }()
+			pre[i] = runC27Reload(reload[i])
+		}(i)
+	}
+	genAll := func(yield func(vt.Case)) {
+		gen(yield)
+		wg.Wait()
+		for i := range reload {
+			reload[i]["pre"] = i
+			yield(reload[i])
+		}
+	}
+	vt.Run(t, genAll, nil, func(c vt.Case) (ev vt.Event) {
+		if vt.Str(c["kind"]) == "reload" {
+			if i, ok := c["pre"]; ok && vt.Replay(t) == nil {
+				return pre[vt.Int(i)]
+			}
+			guarded(t, "C27 reload case", func() { ev = runC27Reload(c) })
+			return ev
+		}
 		guarded(t, "C27 case", func() { ev = runC27(c) })
 		return ev
 	})
